@@ -378,7 +378,7 @@ def stage_gmir():
 # ------------------------------------------------------------------ expansions of the family instances (C18, C10)
 def stage_expand(tier, seed):
     """-Zunpretty=expanded of the family instances, split per module into normalised item token strings"""
-    insts = [x for x in I.build(tier, seed) if 'family' in x]
+    insts = [x for x in I.build(tier, seed) if 'family' in x and x['kind'] != 'reprauto']      # reprauto families are judged by acceptance and item rules only
     st = X.Stage('expand-%s-%d-%s' % (tier, seed, hashlib.sha256(json.dumps(insts, sort_keys=True).encode()).hexdigest()[:12]))
     def build(out):
         ws = X.scratch_dir('expand')
